@@ -331,7 +331,7 @@ func langCheck(prop, tier string) int {
 }
 
 func langRule(prop string) string {
-	base := "bounded-exhaustive enumeration: all strings of <=N symbols over the 25-symbol class alphabet (N=5 quick, 6 thorough; adjacent {,{ / },} sequences skipped as duplicates of {{ / }}); all abstract spokfiles of 1 statement (full alphabet), 2 statements (reduced) [3 (small) thorough] rendered in every layout with <=k deviating sections (k=1 quick, 2 thorough); every prefix and single-symbol insert/delete/substitute (symbols: the alphabet plus lone CR, backslash, NUL, '=', '-', '>', single quote, NBSP, U+2028, VT) of canonical renderings and of the repository's spokfiles; every pair of such edits of two tiny programs (thorough: of every rendering of <=40 bytes); every byte value 0x00-0xff inserted/substituted at every position of three (thorough: all reduced) programs; every string of <=2 (3) alphabet symbols above and below a 70000-byte comment line, string value and task. "
+	base := "bounded-exhaustive enumeration: all strings of <=N symbols over the 25-symbol class alphabet (N=5 quick, 6 thorough; adjacent {,{ / },} sequences skipped as duplicates of {{ / }}); all abstract spokfiles of 1 statement (full alphabet), 2 statements (reduced) [3 (small) thorough] rendered in every layout with <=k deviating sections (k=1 quick, 2 thorough); every prefix and single-symbol insert/delete/substitute (symbols: the alphabet plus lone CR, backslash, NUL, '=', '-', '>', single quote, NBSP, U+2028, VT, U+0085, BOM, a combining mark, a letter outside the BMP, ZWJ, the keyword, an empty-comment line) of canonical renderings and of the repository's spokfiles; every pair of such edits of two tiny programs (thorough: of every rendering of <=40 bytes); every byte value 0x00-0xff inserted/substituted at every position of three (thorough: all reduced) programs; every string of <=2 (3) alphabet symbols above and below a 70000-byte comment line, string value and task. "
 	base += "distinct_nontrivial counts conservatively: non-trivial sigma strings (distinct by construction) + non-trivial structure renderings longer than 24 bytes deduplicated per structure; edit-space inputs are evaluated but not counted as distinct. "
 	switch prop {
 	case "C06":
